@@ -594,7 +594,7 @@ fn sc_nesting(ctx: &mut Ctx) {
 // ---------------------------------------------------------------------------------------------
 // (5) text-level entry points
 
-const TEXTS: [&str; 24] = ["", " ", "0", "zz", "0x", "a", "abc", "ABCD", "é", "00 ", "\"", "{", "}", "[", "]", "null", "true", "1", "-1", "1.5", "[]", "{}", "\"a\"", "addr1"];
+const TEXTS: [&str; 33] = ["", " ", "0", "zz", "0x", "a", "abc", "ABCD", "é", "aé", "abé", "abcé", "日本", "a日", "😀", "a😀", "0xé", "addr1é", "00 ", "\"", "{", "}", "[", "]", "null", "true", "1", "-1", "1.5", "[]", "{}", "\"a\"", "addr1"];
 
 fn sc_hex_text(ctx: &mut Ctx) {
     let ds = decoders_static();
@@ -826,6 +826,16 @@ fn sc_helpers(ctx: &mut Ctx) {
             .iter()
             .map(|s| s.to_string()),
         );
+        // string atoms with a multi-byte character starting at byte offset 0, 1, 2 and 3 (any
+        // byte-indexed slicing of a str is exposed by one of them), hex-looking prefixes in both
+        // cases, escapes; each placed wherever the helpers read a string
+        let atoms = ["é", "aé", "abé", "abcé", "日", "a日", "ab日", "abc日", "😀", "a😀", "ab😀", "abc😀", "0xé", "0x日", "0Xab", "0xab", "0xabc", "0xzz", "0", "\\u00e9", "\\ud83d", "a\\u0000b", "-é", "1é"];
+        for a in atoms {
+            let a = a.replace("\\\\", "\\");
+            for t in ["\"@\"", "{\"@\": 1}", "[\"@\"]", "{\"bytes\": \"@\"}", "{\"map\": [{\"k\": {\"bytes\": \"@\"}, \"v\": {\"int\": 1}}]}", "{\"type\": \"sig\", \"keyHash\": \"@\"}", "{\"cosigners\": {\"@\": \"self\"}, \"template\": \"@\"}", "{\"cosigners\": {\"a\": \"@\"}, \"template\": \"a\"}", "{\"@\": {\"@\": \"@\"}}"] {
+                v.push(t.replace('@', &a));
+            }
+        }
         v
     };
     let helpers: Vec<(&str, fn(&str) -> bool)> = vec![
